@@ -182,6 +182,37 @@ async fn run(sc: Value) {
                 let ex = engine.executor();
                 let a = ex.act();
                 let o = vars_of(&st["options"]);
+                if let Some(n) = st["race"].as_u64() {
+                    // the same action from n client threads released by one barrier
+                    let barrier = std::sync::Barrier::new(n as usize);
+                    let handle = tokio::runtime::Handle::current();
+                    let oks: Vec<bool> = std::thread::scope(|sc| {
+                        let hs: Vec<_> = (0..n).map(|_| {
+                            let (engine, pid, tid, o, barrier, handle) = (&engine, &pid, &tid, &o, &barrier, &handle);
+                            sc.spawn(move || {
+                                let _g = handle.enter();
+                                let ex = engine.executor();
+                                let a = ex.act();
+                                barrier.wait();
+                                let r = match kind {
+                                    "next" | "complete" => a.complete(pid, tid, o),
+                                    "submit" => a.submit(pid, tid, o),
+                                    "back" => a.back(pid, tid, o),
+                                    "cancel" => a.cancel(pid, tid, o),
+                                    "abort" => a.abort(pid, tid, o),
+                                    "skip" => a.skip(pid, tid, o),
+                                    "error" => a.error(pid, tid, o),
+                                    "remove" => a.remove(pid, tid, o),
+                                    _ => panic!("unknown race action kind {kind}"),
+                                };
+                                r.is_ok()
+                            })
+                        }).collect();
+                        hs.into_iter().map(|h| h.join().unwrap_or(false)).collect()
+                    });
+                    let n_ok = oks.iter().filter(|x| **x).count();
+                    results.push(json!({"op": "race", "kind": kind, "nid": nid, "tid": tid, "threads": n, "n_ok": n_ok}));
+                } else {
                 let r = match kind {
                     "next" | "complete" => a.complete(&pid, &tid, &o),
                     "submit" => a.submit(&pid, &tid, &o),
@@ -196,6 +227,7 @@ async fn run(sc: Value) {
                     _ => panic!("unknown action kind {kind}"),
                 };
                 results.push(json!({"op": "action", "kind": kind, "nid": nid, "tid": tid, "ok": r.is_ok(), "err": r.err().map(|e| e.to_string())}));
+                }
             }
             "answer_all" => {
                 let pi = st["pid_index"].as_u64().unwrap_or(0) as usize;
@@ -278,7 +310,11 @@ async fn run(sc: Value) {
                         }
                         let _ = c.delete(&id);
                         let after_delete = c.find(&id).is_ok();
-                        results.push(json!({"op": "store_roundtrip", "created": created, "found": found, "found_after_update": found_upd, "present_after_delete": after_delete}));
+                        // an update of a record that is not there does not create it
+                        let _ = c.update(&v);
+                        let after_late_update = c.find(&id).is_ok() || c.exists(&id).unwrap_or(false);
+                        results.push(json!({"op": "store_roundtrip", "created": created, "found": found, "found_after_update": found_upd, "present_after_delete": after_delete,
+                            "present_after_late_update": after_late_update}));
                     }};
                 }
                 match ty {
